@@ -2,3 +2,6 @@ import AdaVerif.Base.Bytes
 import AdaVerif.Gen.Tables
 import AdaVerif.Spec.Sets
 import AdaVerif.Model.Encode
+import AdaVerif.Spec.Host
+import AdaVerif.Spec.Url
+import AdaVerif.Spec.Setters
